@@ -1563,6 +1563,7 @@ def check_passes(facts):
     # the rewrites themselves: what a pass stores over the node it was handed, and which actions it returns
     nw = 0
     kc = {}
+    built_bad = set()
     for fn in sorted(facts.body_names()):
         base = re.sub(r"::\{closure#\d+\}", "", fn)
         owner = base if base in tab else facts.owner_of(base)
@@ -1596,6 +1597,14 @@ def check_passes(facts):
                                 "replacing `(?:x*?)*` by its inner loop keeps the inner quantifier's greediness and drops the outer one's" % (
                                     owner.split("::")[-1], ("Node::" + var) if var else "a node moved from elsewhere (a child)", st["line"],
                                     spec.get("writes", [])), facts.loc(fn, st["line"]))
+            if st["rv"]["k"] == "agg" and str(st["rv"].get("adt", "")).endswith("ir::Node"):
+                var_ = str(st["rv"].get("variant"))
+                if var_ not in spec.get("builds", []) and (owner, var_) not in built_bad:
+                    built_bad.add((owner, var_))
+                    r.fail("%s builds Node::%s" % (owner, var_),
+                           "the pass %s constructs a Node::%s (line %s), which it never did (reviewed: %s): e.g. spelling a bounded tail "
+                           "`x{0,3}` out as `x?x?x?` creates loops the parser's MAX_LOOPS guard never counted and turns n+1 choices into "
+                           "2^n" % (owner.split("::")[-1], var_, st["line"], spec.get("builds", [])), facts.loc(fn, st["line"]))
             if st["rv"]["k"] == "agg" and str(st["rv"].get("adt", "")).endswith("PassAction") and str(st["rv"].get("variant")) in ("Replace", "Remove"):
                 v = str(st["rv"].get("variant"))
                 kc[(owner, v)] = kc.get((owner, v), 0) + 1
@@ -2168,7 +2177,8 @@ def check_parseonly(facts):
         key = "%s answers None only before consuming" % fn
         passed = [st["line"] for bi, i, st in b.iter_stmts() if st["k"] == "assign" and st["pl"]["l"] == 0 and not st["pl"]["p"] and st["rv"]["k"] != "agg"]
         passed += [t.get("line") for bb, t in b.iter_calls() if t["dest"]["l"] == 0 and not t["dest"]["p"]
-                   and not (t.get("callee") or "").endswith("FromResidual::from_residual")]
+                   and not (t.get("callee") or "").endswith("FromResidual::from_residual")
+                   and (t.get("callee") or "").split("::")[-1] not in ("then_some", "then")]     # `cond.then_some(v)` is Some/None by a bool
         if passed:
             r.fail(key, "the routine returns an Option it computed elsewhere (line %s) instead of an explicit `Some(..)` / `None`: whether it can "
                         "answer None after consuming input is no longer visible — a checked arithmetic chain that fails on overflow returns "
@@ -2187,6 +2197,61 @@ def check_parseonly(facts):
         else:
             r.ok(key)
     r.floor("try_routines_without_a_saved_copy", n, 1)
+    return r
+
+
+# ---- DUPCONT --------------------------------------------------------------------------------
+
+def check_dupcont(facts):
+    r = RuleResult("DUPCONT", "the backtracker's run_loop schedules each continuation once: on a path that returns `Some(ip)` no "
+                              "`BacktrackInsn::SetPosition` carrying that same ip was pushed on the way (dominating the return) — the greedy arm "
+                              "pushes the exit and enters the body, the lazy arm pushes the body and takes the exit. Pushing the exit and then "
+                              "also returning it explores the same continuation twice per loop: k such loops in a row cost 2^k visits "
+                              "instead of k + 1 (results unchanged, so no differential test sees it)")
+    fn = "classicalbacktrack::MatchAttempter::<'a, Input>::run_loop"
+    if not facts.has_body(fn):
+        r.error("anchor %s not found" % fn)
+        return r
+    b = facts.body(fn)
+    dom = b.dom()
+
+    def same_value(l):
+        """the local a value was first computed into (through plain copies only)"""
+        for _ in range(8):
+            d = b.single_def(l)
+            if d and d[2] == "assign" and d[3]["rv"]["k"] == "use" and d[3]["rv"]["op"].get("k") in ("copy", "move") and not d[3]["rv"]["op"]["pl"]["p"]:
+                l = d[3]["rv"]["op"]["pl"]["l"]
+            else:
+                break
+        return l
+    pushes = []
+    for bi, i, st in b.iter_stmts():
+        if st["k"] == "assign" and st["rv"]["k"] == "agg" and str(st["rv"].get("adt", "")).endswith("BacktrackInsn") and \
+                str(st["rv"].get("variant")) == "SetPosition":
+            flds = st["rv"].get("fields") or []
+            if "ip" in flds:
+                op = st["rv"]["ops"][flds.index("ip")]
+                if op.get("k") in ("copy", "move"):
+                    pushes.append((bi, same_value(op["pl"]["l"]), st["line"]))
+    n = 0
+    for bi, i, st in b.iter_stmts():
+        if st["k"] != "assign" or st["pl"]["l"] != 0 or st["pl"]["p"] or st["rv"]["k"] != "agg" or str(st["rv"].get("variant")) != "Some":
+            continue
+        op = (st["rv"].get("ops") or [{}])[0]
+        if op.get("k") not in ("copy", "move"):
+            continue
+        n += 1
+        root = same_value(op["pl"]["l"])
+        key = "%s return #%d takes a continuation it did not also push" % (fn, n)
+        dup = [ln for pb, pr, ln in pushes if pr == root and (pb == bi or pb in dom[bi])]
+        if dup:
+            r.fail(key, "the path returning `Some(%s)` (line %s) has already pushed a SetPosition with the same ip (line %s): that "
+                        "continuation runs now and again when the record is popped" % (b.local_name(root) or "ip", st["line"], dup[0]),
+                   facts.loc(fn, st["line"]))
+        else:
+            r.ok(key)
+    r.floor("run_loop_returns", n, 3)
+    r.floor("set_position_pushes", len(pushes), 1)
     return r
 
 
